@@ -408,7 +408,15 @@ class IntegerSequence(SequenceBase):
             self.p_stop = (
                 self.p_context_stop - IntegerInterval.from_integer(remainder)
             )
-            # if i_step is None here, points will just be None (out of bounds)
+
+        if (
+            self.p_start < self.p_context_start
+            or (self.p_stop is not None and self.p_stop < self.p_start)
+            or (self.p_context_stop and self.p_start > self.p_context_stop)
+        ):
+            # no point within the context bounds: start and stop are None
+            self.p_start = self.p_stop = self.i_step = None
+            excl_points = None
 
         # Create a list of multiple exclusion points, if there are any.
         if excl_points:
@@ -424,6 +432,8 @@ class IntegerSequence(SequenceBase):
 
     def is_on_sequence(self, point):
         """Is point on-sequence, disregarding bounds?"""
+        if self.p_start is None:
+            return False
         if self.exclusions and point in self.exclusions:
             return False
         if self.i_step:
@@ -433,8 +443,9 @@ class IntegerSequence(SequenceBase):
 
     def _get_point_in_bounds(self, point):
         """Return point, or None if out of bounds."""
-        if point >= self.p_start and (
-                self.p_stop is None or point <= self.p_stop):
+        if point is not None and self.p_start is not None and (
+                point >= self.p_start and (
+                    self.p_stop is None or point <= self.p_stop)):
             return point
         else:
             return None
@@ -459,38 +470,37 @@ class IntegerSequence(SequenceBase):
         else:
             prev_point = point - self.i_step
         ret = self._get_point_in_bounds(prev_point)
-        if self.exclusions and ret in self.exclusions:
+        if self.exclusions and ret and ret in self.exclusions:
             return self.get_prev_point(ret)
         return ret
 
     def get_nearest_prev_point(self, point):
         """Return the largest point < some arbitrary point."""
-        if self.is_on_sequence(point):
+        if self.is_valid(point):
             return self.get_prev_point(point)
-        sequence_point = self._get_point_in_bounds(self.p_start)
+        sequence_point = self.get_start_point()
         prev_point = None
         while sequence_point is not None:
-            if sequence_point > point:
-                # Technically, >=, but we already test for this above.
+            if sequence_point >= point:
                 break
             prev_point = sequence_point
             sequence_point = self.get_next_point(sequence_point)
-        if self.exclusions and prev_point in self.exclusions:
-            return self.get_nearest_prev_point(prev_point)
         return prev_point
 
     def get_next_point(self, point):
         """Return the next point > point, or None if out of bounds."""
-        if not self.i_step:
+        if self.p_start is None:
+            return None
+        if point < self.p_start:
+            ret = self.p_start
+        elif not self.i_step:
             # this is a one-off sequence
-            # TODO - is this needed? if so, check it gives sensible behaviour
-            if point < self.p_start:
-                return self.p_start
-            else:
-                return None
-        i = int(point - self.p_start) % int(self.i_step)
-        next_point = point + self.i_step - IntegerInterval.from_integer(i)
-        ret = self._get_point_in_bounds(next_point)
+            return None
+        else:
+            i = int(point - self.p_start) % int(self.i_step)
+            next_point = (
+                point + self.i_step - IntegerInterval.from_integer(i))
+            ret = self._get_point_in_bounds(next_point)
         if self.exclusions and ret and ret in self.exclusions:
             return self.get_next_point(ret)
         return ret
@@ -522,13 +532,21 @@ class IntegerSequence(SequenceBase):
 
     def get_start_point(self):
         """Return the first point in this sequence, or None."""
-        if self.exclusions and self.p_start in self.exclusions:
+        if (
+            self.exclusions
+            and self.p_start is not None
+            and self.p_start in self.exclusions
+        ):
             return self.get_next_point_on_sequence(self.p_start)
         return self.p_start
 
     def get_stop_point(self):
         """Return the last point in this sequence, or None if unbounded."""
-        if self.exclusions and self.p_stop in self.exclusions:
+        if (
+            self.exclusions
+            and self.p_stop is not None
+            and self.p_stop in self.exclusions
+        ):
             return self.get_prev_point(self.p_stop)
         return self.p_stop
 
